@@ -4,11 +4,13 @@
 EXTENDS ConcConn
 CONSTANTS Writers, K, N
 VARIABLES wnext, delivered
-vars == <<stream, rd, closed, broken, wnext, delivered>>
+vars == <<stream, rd, closed, broken, half, wnext, delivered>>
 Init == CInit /\ wnext = [e \in Ends |-> [w \in Writers |-> 1]] /\ delivered = [e \in Ends |-> <<>>]
 DoWrite(e, w) == /\ wnext[e][w] <= K
                  /\ (WriteOK(e, <<e, w, wnext[e][w]>>, N) \/ (WriteErr(e, <<e, w, wnext[e][w]>>, N) /\ WriteErrReturn(e)))
                  /\ wnext' = [wnext EXCEPT ![e][w] = @ + 1] /\ UNCHANGED delivered
+DoWriteOK(e, w) == /\ wnext[e][w] <= K /\ WriteOK(e, <<e, w, wnext[e][w]>>, N)
+                   /\ wnext' = [wnext EXCEPT ![e][w] = @ + 1] /\ UNCHANGED delivered
 \* the segments a Read may return: the rest of the current message, or half of it
 NextSegs(e) == LET s == stream[Peer(e)] i == rd[e][1] off == rd[e][2] IN
                IF i > Len(s) THEN {}
@@ -17,7 +19,8 @@ NextSegs(e) == LET s == stream[Peer(e)] i == rd[e][1] off == rd[e][2] IN
 DoRead(e) == \/ \E segs \in NextSegs(e) : ReadOK(e, segs) /\ delivered' = [delivered EXCEPT ![e] = @ \o segs] /\ UNCHANGED wnext
              \/ ReadErr(e) /\ UNCHANGED <<wnext, delivered>>
 DoClose(e) == e \notin closed /\ CloseOp(e) /\ UNCHANGED <<wnext, delivered>>
-Next == \E e \in Ends : (\E w \in Writers : DoWrite(e, w)) \/ DoRead(e) \/ DoClose(e)
+DoCloseWrite(e) == e \notin half /\ CloseWriteOp(e) /\ UNCHANGED <<wnext, delivered>>
+Next == \E e \in Ends : (\E w \in Writers : DoWrite(e, w)) \/ DoRead(e) \/ DoClose(e) \/ DoCloseWrite(e)
 Spec == Init /\ [][Next]_vars
 
 \* consequences named by the statement
@@ -25,5 +28,8 @@ PerWriterOrder == \A e \in Ends : \A i, j \in 1..Len(stream[e]) :
                     (i < j /\ stream[e][i].id[2] = stream[e][j].id[2]) => stream[e][i].id[3] < stream[e][j].id[3]
 \* what was delivered is a gap-free prefix of what was written, message by message
 DeliveredIsPrefix == \A e \in Ends : Walk(stream[Peer(e)], <<1, 0>>, delivered[e]) = rd[e]
-NothingAfterClose == [][\A e \in Ends : e \in closed => (stream'[e] = stream[e] \/ (e \in broken' /\ e \notin broken))]_vars
+NothingAfterClose == [][\A e \in Ends : (e \in closed \/ e \in half) => (stream'[e] = stream[e] \/ (e \in broken' /\ e \notin broken /\ e \notin half))]_vars
+\* a half close never takes anything away from the other direction: the peer can still write, and what it writes can be read
+HalfCloseLeavesPeerWriting == \A e \in Ends : (e \in half /\ closed = {} /\ Peer(e) \notin half /\ Peer(e) \notin broken) =>
+                                 \A w \in Writers : wnext[Peer(e)][w] <= K => ENABLED DoWriteOK(Peer(e), w)
 =============================================================================
